@@ -107,6 +107,12 @@ Definition cons_clauses (bad : Z -> Z -> Z -> Z -> bool) (mk : Z -> Z -> Z -> Z 
                               (pairs (rng N)))
            (pairs (rng k)).
 
+(* the clauses emitted for one inconsistent pair: [-f(i1,j1),-f(i2,j2)] and, unless symmetry is
+   broken elsewhere, [-f(i1,j2),-f(i2,j1)] *)
+Definition pair_mk (off N : Z) (symbreak : bool) (i1 i2 j1 j2 : Z) : list ir :=
+  IClause [- mvar off N i1 j1; - mvar off N i2 j2]
+  :: (if symbreak then [] else [IClause [- mvar off N i1 j2; - mvar off N i2 j1]]).
+
 (* ---------- binary mappings (new_binary_mapping n m as the first group) ---------- *)
 (* number of bits: int(ceil(log(m,2))), exact for m < 2^29 (DESIGN.md section 8) *)
 Definition bm_bits (m : Z) : Z := Z.log2_up m.
@@ -153,6 +159,13 @@ Definition rel_injective (R : Z -> Z -> bool) (n m : Z) : Prop :=
 Definition rel_nondecreasing (R : Z -> Z -> bool) (n m : Z) : Prop :=
   forall i1 i2 j1 j2, 1 <= i1 -> i1 < i2 -> i2 <= n -> 1 <= j2 -> j2 < j1 -> j1 <= m ->
     R i1 j1 = true -> R i2 j2 = true -> False.
+(* no inconsistent pair (i1<i2) -> (j1<j2), resp. (i1<i2) -> (j2>j1) *)
+Definition rel_straight (R : Z -> Z -> bool) (bad : Z -> Z -> Z -> Z -> bool) (n m : Z) : Prop :=
+  forall i1 i2 j1 j2, 1 <= i1 -> i1 < i2 -> i2 <= n -> 1 <= j1 -> j1 < j2 -> j2 <= m -> bad i1 i2 j1 j2 = true ->
+    R i1 j1 = true -> R i2 j2 = true -> False.
+Definition rel_crossed (R : Z -> Z -> bool) (bad : Z -> Z -> Z -> Z -> bool) (n m : Z) : Prop :=
+  forall i1 i2 j1 j2, 1 <= i1 -> i1 < i2 -> i2 <= n -> 1 <= j1 -> j1 < j2 -> j2 <= m -> bad i1 i2 j1 j2 = true ->
+    R i1 j2 = true -> R i2 j1 = true -> False.
 (* the relation read off an assignment *)
 Definition rel_of (a : Z -> bool) (off m : Z) : Z -> Z -> bool := fun i j => a (mvar off m i j).
 (* the assignment that writes a function: variable off+(i-1)*m+j is true iff phi i = j *)
